@@ -212,6 +212,9 @@ func (it *Interp) callFunction(fn *ssa.Function, args []Value, env []Value, site
 	if in, ok := intrinsics[name]; ok {
 		return in(it, fn, args, site)
 	}
+	if in := prefixIntrinsic(name); in != nil {
+		return in(it, fn, args, site)
+	}
 	if fn.Blocks == nil {
 		if in := it.externalByShape(fn, name); in != nil {
 			return in(it, fn, args, site)
